@@ -63,8 +63,8 @@ def s_format(obj, spec=""):
     from crosshair.libimpl.builtinslib import AnySymbolicStr
     with NoTracing():
         num = isinstance(obj, CrossHairValue) and not isinstance(obj, AnySymbolicStr)
-    if num:
-        return "<sym>"
+    if num or (type(obj) in (list, tuple) and _has_sym(obj)):
+        return "<sym>"          # message text is never observed by a property; CrossHair's format would realise
     return format(obj, spec)
 
 
@@ -209,6 +209,7 @@ def rng_deny_layer():
         f = getattr(_np.random.RandomState, m, None)
         if f is not None:
             layer[f] = _deny("np.random." + m)
+    layer["__cyfunc__"] = {id(getattr(_np.random, m)): _deny("np.random." + m) for m in ("seed", "sample", "ranf")}
     for m in _PY_RNG_METHODS:
         f = getattr(_random.Random, m, None)
         if f is not None:
@@ -219,11 +220,16 @@ def rng_deny_layer():
 class Stream:
     """A random stream whose elements are solver variables named (tag, index): two runs that use the same tag
     share their variables (same seed => same stream), different tags are independent."""
-    def __init__(self, tag, distinct=False):
-        self.tag, self.pos, self.distinct = tag, 0, distinct
+    def __init__(self, tag, distinct=False, max_draws=None):
+        self.tag, self.pos, self.distinct, self.max_draws = tag, 0, distinct, max_draws
+
+    def _bound(self):
+        if self.max_draws is not None and self.pos >= self.max_draws:
+            sym.assume(False)          # stated bound on the number of draws (unbounded retry loops)
 
     def unit(self):
         """next element as a real in [0, 1)"""
+        self._bound()
         i = self.pos
         self.pos += 1
 
@@ -241,6 +247,7 @@ class Stream:
 
     def index(self, n):
         """next element as an int in range(n)"""
+        self._bound()
         i = self.pos
         self.pos += 1
         return sym.shared(f"stream:{self.tag}[{i}]", lambda: sym.integer(f"{self.tag}[{i}]", 0, n - 1))
@@ -294,8 +301,11 @@ def numpy_stream_layer(get_stream, on_seed=None):
             out.append(items.pop(int(i)))
         return NPList(out)
 
+    def mod_seed(s=None):
+        seed(None, s)
+
     R = _np.random.RandomState
-    return {R.seed: seed, R.uniform: uniform, R.random: random, R.random_sample: random, R.rand: rand,
+    return {"__cyfunc__": {id(_np.random.seed): mod_seed}, R.seed: seed, R.uniform: uniform, R.random: random, R.random_sample: random, R.rand: rand,
             R.choice: choice, R.randint: randint, R.permutation: permutation}
 
 
@@ -381,13 +391,31 @@ def s_dispatcher(self, *a, **k):
     return self(*a, **k)          # a call from the stub's own code reaches the layer below (the real numpy)
 
 
+# np.random.seed / sample / ranf are module-level *cython functions* (not bound methods of the global RandomState):
+# CrossHair normalises a call to `type(fn).__call__` with the function as binding target, like the numpy dispatchers.
+_CYFUNC_CALL = type(_np.random.seed).__call__
+_CYFUNC_TABLE = []          # stack of {id(function): stub}
+
+
+def s_cyfunc(self, *a, **k):
+    for table in reversed(_CYFUNC_TABLE):
+        stub = table.get(id(self))
+        if stub is not None:
+            return stub(*a, **k)
+    return self(*a, **k)
+
+
 BASE_LAYER = {
     builtins.int: s_int, builtins.format: s_format, builtins.print: s_print,
-    _DISPATCHER_CALL: s_dispatcher,
+    _DISPATCHER_CALL: s_dispatcher, _CYFUNC_CALL: s_cyfunc,
 }
 
 
 def _seed_noop(self, seed=None):
+    return None
+
+
+def _mod_seed_noop(seed=None):
     return None
 
 
@@ -400,7 +428,8 @@ class env:
         if rng_deny:
             self.layers.append(rng_deny_layer())
         if allow_seed:
-            self.layers.append({_np.random.RandomState.seed: _seed_noop})
+            self.layers.append({_np.random.RandomState.seed: _seed_noop,
+                                "__cyfunc__": {id(_np.random.seed): _mod_seed_noop}})
         self.layers.extend(layers)
 
     def __enter__(self):
@@ -412,6 +441,9 @@ class env:
         self._installed = []
         with NoTracing():          # dict operations on the patch table are slow (and pointless) under tracing
             for layer in self.layers:
+                layer = dict(layer)
+                cy = layer.pop("__cyfunc__", None)
+                _CYFUNC_TABLE.append(cy or {})
                 COMPOSITE_TRACER.patching_module.add(layer)
                 self._installed.append(layer)
         return self
@@ -423,6 +455,7 @@ class env:
         with NoTracing():
             for layer in reversed(self._installed):
                 COMPOSITE_TRACER.patching_module.pop(layer)
+                _CYFUNC_TABLE.pop()
         return False
 
 
@@ -431,3 +464,4 @@ def install_symbolic_format():
     from crosshair.libimpl import builtinslib as _bl
     for cls in (_bl.SymbolicFloat, _bl.RealBasedSymbolicFloat, _bl.SymbolicInt, _bl.SymbolicBool):
         cls.__format__ = lambda self, spec: "<sym>"
+        cls.__repr__ = lambda self: "<sym>"          # f"... {list_of_symbolics}" in validators' error messages
